@@ -309,10 +309,11 @@ func execC08(w *envlab.World, hc HookCase) (*caseOutcome, error) {
 func countC08(c *vlib.Ctx, out *caseOutcome) {
 	specs := map[string]envlab.HookSpec{}
 	awaitNe, tasks, gates := false, false, false
+	spelled, far := false, false
 	points := map[string]int{}
 	for _, h := range out.Case.Hooks {
 		specs[h.Name] = h
-		if h.AwaitExpr() != h.Trigger {
+		if !sameExpr(h.AwaitExpr(), h.Trigger) {
 			awaitNe = true
 		}
 		if h.Kind == envlab.Task {
@@ -322,7 +323,20 @@ func countC08(c *vlib.Ctx, out *caseOutcome) {
 			gates = true
 		}
 		if !strings.HasPrefix(h.Name, "s_") {
-			points[string(h.Kind)+h.Trigger]++
+			tn, tw := envlab.ParseExpr(h.Trigger)
+			points[string(h.Kind)+envlab.Expr(tn, tw)]++
+		}
+		for _, e := range []string{h.Trigger, h.Await} {
+			if e == "" {
+				continue
+			}
+			n, w := envlab.ParseExpr(e)
+			if e != envlab.Expr(n, w) {
+				spelled = true
+			}
+			if w < -128 || w > 127 {
+				far = true
+			}
 		}
 	}
 	eq := false
@@ -345,6 +359,8 @@ func countC08(c *vlib.Ctx, out *caseOutcome) {
 	c.Count("sets_equal_weights", b2i(eq))
 	c.Count("sets_hook_tasks", b2i(tasks))
 	c.Count("sets_with_gates", b2i(gates))
+	c.Count("sets_weights_spelled_differently", b2i(spelled))
+	c.Count("sets_weights_beyond_int8", b2i(far))
 	c.Count("gated_observed_open", int64(out.GatedOpen))
 	c.Count("transitions", int64(len(out.Results)))
 	c.Count("records", int64(len(out.Records)))
